@@ -16,7 +16,7 @@ from wire import quicref as Q
 
 BASE = dict(SuiteSet='{"1301","1302","1303","1304"}', OfferFirst='{"same","other","grease"}',
             Splits='{<<1>>,<<1,2>>,<<2,1>>,<<3,1,2>>,<<2,3,1>>,<<3,2,1>>}', MaxApp="2", MaxGen="3", AllowEarlyGuess="FALSE",
-            Retries="BOOLEAN", ZeroRtts="BOOLEAN", EmitOn="FALSE")
+            Retries="BOOLEAN", ZeroRtts="BOOLEAN", EmitOn="FALSE", AllowLate="FALSE", AllowLateAcrossKu="FALSE")
 INV = ["OutputIsPrefix", "CryptoOk", "EpochOk", "KeysOk", "DoneExact"]
 DEFS = "DoneExact == Done => DgramsEqualStreamData"
 CIDLENS = [0, 1, 4, 8, 16, 20]
@@ -92,14 +92,28 @@ def run(chk):
     r = tlc.run("Quic", dict(BASE, AllowEarlyGuess="TRUE", ZeroRtts="{TRUE}", OfferFirst='{"other","grease"}', Splits='{<<1>>}', Retries="{FALSE}"),
                 invariants=["DoneExact"], view="View", timeout=600, extra_defs=DEFS)
     chk.tlc("KF_EarlySuiteGuess (expected counterexample)", r, expect_ok=False)
+    r2 = tlc.run("Quic", dict(BASE, **dict(ku, AllowLate="TRUE", MaxApp="4")), invariants=INV, view="View", timeout=1500, extra_defs=DEFS)
+    chk.tlc("Quic exhaustive with a delayed datagram (within a key generation)", r2)
+    r3 = tlc.run("Quic", dict(BASE, **dict(ku, AllowLate="TRUE", AllowLateAcrossKu="TRUE", MaxApp="4")), invariants=INV, view="View", timeout=600, extra_defs=DEFS)
+    chk.tlc("datagram delayed across a key update (not claimed by the property; documented deviation, expected counterexample)", r3, expect_ok=False)
+    chk.extra["documented_deviation_late_across_key_update"] = r3.violated
     chk.extra["kf_model"] = dict(KF_EarlySuiteGuess=dict(violates=r.violated, expected="DoneExact"))
     behs = gen(chk, dict(MaxApp="3"), 40 if quick else 600, chk.seed)
     behs += gen(chk, dict(ku, MaxApp="5"), 15 if quick else 300, chk.seed + 1)
+    late = gen(chk, dict(ku, MaxApp="5", AllowLate="TRUE"), 15 if quick else 300, chk.seed + 3)
+    behs += [b for b in late if [d["sn"] for d in b["hist"]] != sorted(d["sn"] for d in b["hist"])]
     kfb = [b for b in gen(chk, dict(AllowEarlyGuess="TRUE", ZeroRtts="{TRUE}", OfferFirst='{"other","grease"}', MaxApp="1"), 5 if quick else 40, chk.seed + 2)
            if b["kf"]]
     rng.shuffle(behs)
     behs = behs[: 900 if quick else 18000] + kfb[: 10 if quick else 100]
-    jobs = [(b, rng.randrange(1 << 30), params_for(rng, quick), rng.choice([[], [], ["-m"], ["-m", "443:9443"]])) for b in behs]
+    def params(b):
+        p = params_for(rng, quick)
+        sns = [d.get("sn", i + 1) for i, d in enumerate(b["hist"])]
+        if sns != sorted(sns):          # a delayed datagram: its sender chose the pn encoding for the window it knew
+            p["pn_gaps"] = rng.choice([None, "small"])
+            p["pnlen"] = {"c": max(2, p["pnlen"]["c"]), "s": max(2, p["pnlen"]["s"])}
+        return p
+    jobs = [(b, rng.randrange(1 << 30), params(b), rng.choice([[], [], ["-m"], ["-m", "443:9443"]])) for b in behs]
     results = pool_map(_one, jobs)
     traces = []
     for res in results:
